@@ -56,6 +56,9 @@ class ConvRun:
             self.req_put.append(env.now)
             tok = self.edge.reserve_put()
             yield tok
+            hold = self.case.get("hold")
+            if hold and i < len(hold) and hold[i] > 0:
+                yield env.timeout(hold[i])      # loading time between the grant and the put
             it = Item("x%d" % i)
             it.length = il
             self.items.append(it)
